@@ -1,5 +1,5 @@
 SPECIFICATION Spec
-CONSTANTS MaxLen = 5 CopyOnCompute = TRUE
+CONSTANTS MaxLen = 4 CopyOnCompute = "each"
 INVARIANT Fresh
 INVARIANT NotTheStored
 INVARIANT ResultsStable
